@@ -17,7 +17,7 @@ meta = {
         'demo_fails_with_change': 'demo with change: FAIL' in log,
         'demo_passes_without': 'demo on original: PASS' in log,
     },
-    'what_was_run': 'tools/seedverify.sh: fresh worktree of /repo HEAD; demo on original; git apply patch.diff; go build ./... in 3 modules; demo again; tools/baseline.sh; then git -C /repo apply patch.diff, bin/verif check -property all -no-evidence, git -C /repo checkout -- .',
+    'what_was_run': 'tools/seedverify.sh: fresh worktree of /repo HEAD; demo on original; git apply patch.diff; go build ./... in 3 modules; demo again; tools/baseline.sh; bin/verif check -property all -no-evidence against that worktree with the patch applied; tools/seedmatrix.sh repeats the checks on /repo itself (git -C /repo apply patch.diff, run, git -C /repo checkout -- .)',
     'checks_that_fired_when_first_run': fired,
     'demo_files': [l.strip() for l in open(d + '/demo/FILES') if l.strip()],
 }
